@@ -85,6 +85,7 @@ type Out struct {
 	AccessNotes   []string            `json:"access_notes"`
 	Acquisitions  []AcqSite           `json:"acquisitions"` // C10: Lock/RLock sites with the may-held sets (acquire.go)
 	AcqNotes      []string            `json:"acq_notes"`
+	PosCost       *PosCost            `json:"position_conversion"` // C20: the tokenizer's position conversion, found by role (poscost.go)
 }
 
 func main() {
@@ -151,6 +152,9 @@ func main() {
 				out.FieldFx = append(out.FieldFx, fx)
 			}
 		}
+	}
+	if p := byPath[mod+"/pkg/sql/tokenizer"]; p != nil {
+		out.PosCost = posCost(prog, p, *repo)
 	}
 	metricsProgs(byPath, out)
 	recordCallers(prog, pkgs, out)
